@@ -37,7 +37,7 @@ def run(ctx):
             if '+' not in n and n.isascii():          # the negative control needs a valid package name
                 cases.append(('plain-name', n + e))
     if quick:
-        keep = [c for c in cases if c[0] != 'url' or c[1].startswith('file://localhost') or c[1].startswith('C:') or '/../' in c[1]] + ctx.rng.sample([c for c in cases if c[0] == 'url'], 60)
+        keep = [c for c in cases if c[0] != 'url' or c[1].startswith('file://localhost') or c[1].startswith('C:') or '/../' in c[1] or '${' in c[1]] + ctx.rng.sample([c for c in cases if c[0] == 'url'], 60)
         cases = keep
     for ext in (False, True):
         h = build.harness(ext=ext)
